@@ -204,11 +204,15 @@ claim("C06",
       "side condition); C06_check_passes_on_complete_tree; and the token-level round trips "
       "C06_message_token_roundtrip (the inserted token, whatever follows, is read back with its ID through the "
       "translated regex) and C06_structured_value_roundtrip (the digits written after `ref = `, followed by any "
-      "blanks, parse back to the ID). NOT proved: that after an edit every edited statement is recognised again at "
-      "the statement level for all canonical files (that needs the full parser specification theorem); this half is "
-      "decided by exploration: edit / check / second edit of the real binary on generated canonical trees, small-scope "
+      "blanks, parse back to the ID); at the statement level of the canonical file language (Proofs/FileSpec.v, from the "
+      "text): C06_statement_token_roundtrip (a statement whose message begins with the token for id is read back, when "
+      "reported at all, with exactly that id -- any layout, any surrounding file) and C06_statement_ref_roundtrip (a "
+      "statement whose first key-value is the inserted `ref = id` is read back from that key-value with that id). NOT "
+      "proved: that the BYTES an edit run writes are the rendering of such a statement list (UTF-8 round trip + chunk "
+      "arithmetic at the level of items) and that the directive decision of every statement is unchanged by the inserted "
+      "tokens; this link is decided by exploration: edit / check / second edit of the real binary on generated canonical trees, small-scope "
       "trees and the Rust corpus, with every inserted ID read back through the implementation's finder.",
-      "Partial: statement-level round trip is explored, not proved." + COMMON_NOTE,
+      "Partial: the step from the bytes written to the statement-level theorems is explored, not proved." + COMMON_NOTE,
       "Coq proof (driver fixpoint + token round trips) + edit/check/edit campaign on the real binary",
       "DESIGN.md section 6, C06")
 
